@@ -178,6 +178,17 @@ def lcheckStart (l : LSt) : Except Err Bool :=
   | .error e => .error e
   | .ok f => lcheckEnter P f.outline l
 
+def ltransitBody (exits reexens enters : List String) (l : LSt) : Except Err LSt :=
+  match lexit P exits l with
+  | .error e => .error e
+  | .ok l =>
+    match lrexit P reexens l with
+    | .error e => .error e
+    | .ok l =>
+      match lrenter P reexens l with
+      | .error e => .error e
+      | .ok l => lenter P enters l
+
 def ltransit (far : String) (needs : List Need) (l : LSt) : Except Err (Bool × LSt) :=
   match allM (lneedHolds l) needs with
   | .error e => .error e
@@ -191,18 +202,9 @@ def ltransit (far : String) (needs : List Need) (l : LSt) : Except Err (Bool × 
       | .error e => .error e
       | .ok false => .ok (false, l)
       | .ok true =>
-        match lexit P exits l with
+        match ltransitBody P exits reexens enters l with
         | .error e => .error e
-        | .ok l =>
-          match lrexit P reexens l with
-          | .error e => .error e
-          | .ok l =>
-            match lrenter P reexens l with
-            | .error e => .error e
-            | .ok l =>
-              match lenter P enters l with
-              | .error e => .error e
-              | .ok l => (lactivate P far l).map (fun l => (true, l))
+        | .ok l => (lactivate P far l).map (fun l => (true, l))
 
 def lprecurLoop (fn : String) : List Pre → LSt → Except Err (Bool × LSt)
   | [], l => .ok (false, l)
@@ -302,6 +304,32 @@ def CorrBS (R : St → LSt → Prop) (r : Except Err (Bool × St)) (r' : Except 
   | .ok (b, s'), .ok (b', l') => b = b' ∧ R s' l'
   | .error e, .error e' => e = e'
   | _, _ => False
+
+/-- the ghost state of finding D12r is invisible to the relation -/
+theorem Rest.ghost {ι : String → String} {u : Nat} {s0 s : St} (r : Rest ι u s0 s) (q : List (Nat × String)) :
+    Rest ι u s0 { s with pending := q } :=
+  { others := r.others, self := r.self, names := r.names, nextUid := r.nextUid, work := r.work, shares := r.shares,
+    uids := r.uids, now := r.now, regs := r.regs }
+
+theorem Sim.ghost {ι house name P first u base s0} {s : St} {l : LSt} (h : Sim ι house name P first u base s0 s l)
+    (q : List (Nat × String)) : Sim ι house name P first u base s0 { s with pending := q } l :=
+  { obj := h.obj, mem := h.mem, now := h.now, out := h.out, rest := h.rest.ghost q, hs := h.hs }
+
+theorem corr_ghosted (R : St → LSt → Prop) (hR : ∀ s l q, R s l → R { s with pending := q } l)
+    (p : List (Nat × String)) (k : St → Except Err St) (k' : LSt → Except Err LSt)
+    (hk : ∀ s l, R s l → CorrSt R (k s) (k' l)) (s : St) (l : LSt) (h : R s l) :
+    CorrSt R (ghosted p k s) (k' l) := by
+  unfold ghosted
+  have c := hk _ l (hR s l (s.pending ++ p) h)
+  cases r : k { s with pending := s.pending ++ p } with
+  | error e =>
+    cases r' : k' l with
+    | error e' => rw [r, r'] at c; exact c
+    | ok l1 => rw [r, r'] at c; exact c.elim
+  | ok s1 =>
+    cases r' : k' l with
+    | error e' => rw [r, r'] at c; exact c.elim
+    | ok l1 => rw [r, r'] at c; exact hR _ _ _ c
 
 theorem corr_forEach {α β : Type} (R : St → LSt → Prop) (f : α → St → Except Err St) (g : β → LSt → Except Err LSt)
     (xs : List α) (ys : List β) (hlen : xs.length = ys.length)
@@ -761,7 +789,8 @@ theorem sim_enterAll (hinj : ∀ a b, ι a = ι b → a = b) (hleaf : ∀ f ∈ 
       rw [hr, hr'] at hc
       obtain ⟨o', ho', _, _, _, h4'⟩ := hc.fr
       simp only [ho', h4']
-      exact sim_enter lo ι house name P first u base s0 hinj hleaf hE hR _ s' l' hc
+      exact corr_ghosted _ (fun _ _ q hh => hh.ghost q) _ _ _
+        (fun s l hh => sim_enter lo ι house name P first u base s0 hinj hleaf hE hR _ s l hh) s' l' hc
 
 theorem sim_exitAll (hinj : ∀ a b, ι a = ι b → a = b) (hleaf : ∀ f ∈ P, f.leafy = true)
     (abort : Bool) (s : St) (l : LSt) (h : Sim ι house name P first u base s0 s l) :
@@ -915,6 +944,50 @@ theorem sim_checkStart (hleaf : ∀ f ∈ P, f.leafy = true) (cl : List Nat) (s 
     simp only [Except.map]
     exact sim_checkEnter lo ι house name P first u base s0 hleaf _ _ cl s l h
 
+theorem sim_transitBody (hinj : ∀ a b, ι a = ι b → a = b) (hleaf : ∀ f ∈ P, f.leafy = true)
+    (hE : ι kElapsed = statePath house name "elapsed") (hR : ι kRecurred = statePath house name "recurred")
+    (exits reexens enters : List String) (s : St) (l : LSt) (h : Sim ι house name P first u base s0 s l) :
+    CorrSt (Sim ι house name P first u base s0) (transitBody lo u exits reexens enters s)
+      (ltransitBody P exits reexens enters l) := by
+  unfold transitBody ltransitBody
+  have c1 := sim_exit lo ι house name P first u base s0 hinj hleaf exits s l h
+  cases r1 : exit lo u exits s with
+  | error e =>
+    cases r1' : lexit P exits l with
+    | error e' => rw [r1, r1'] at c1; exact c1
+    | ok l1 => rw [r1, r1'] at c1; exact c1.elim
+  | ok s1 =>
+    cases r1' : lexit P exits l with
+    | error e' => rw [r1, r1'] at c1; exact c1.elim
+    | ok l1 =>
+      rw [r1, r1'] at c1
+      simp only []
+      have c2 := sim_rexit lo ι house name P first u base s0 hinj hleaf reexens s1 l1 c1
+      cases r2 : rexit lo u reexens s1 with
+      | error e =>
+        cases r2' : lrexit P reexens l1 with
+        | error e' => rw [r2, r2'] at c2; exact c2
+        | ok l2 => rw [r2, r2'] at c2; exact c2.elim
+      | ok s2 =>
+        cases r2' : lrexit P reexens l1 with
+        | error e' => rw [r2, r2'] at c2; exact c2.elim
+        | ok l2 =>
+          rw [r2, r2'] at c2
+          simp only []
+          have c3 := sim_renter lo ι house name P first u base s0 hinj hleaf reexens s2 l2 c2
+          cases r3 : renter lo u reexens s2 with
+          | error e =>
+            cases r3' : lrenter P reexens l2 with
+            | error e' => rw [r3, r3'] at c3; exact c3
+            | ok l3 => rw [r3, r3'] at c3; exact c3.elim
+          | ok s3 =>
+            cases r3' : lrenter P reexens l2 with
+            | error e' => rw [r3, r3'] at c3; exact c3.elim
+            | ok l3 =>
+              rw [r3, r3'] at c3
+              simp only []
+              exact sim_enter lo ι house name P first u base s0 hinj hleaf hE hR enters s3 l3 c3
+
 theorem sim_transit (hinj : ∀ a b, ι a = ι b → a = b) (hleaf : ∀ f ∈ P, f.leafy = true)
     (hE : ι kElapsed = statePath house name "elapsed") (hR : ι kRecurred = statePath house name "recurred")
     (fn : String) (hfn : ∃ f, lframe P fn = .ok f) (far : String) (needs : List Need)
@@ -951,67 +1024,31 @@ theorem sim_transit (hinj : ∀ a b, ι a = ι b → a = b) (hleaf : ∀ f ∈ P
           | false => exact ⟨rfl, h⟩
           | true =>
             simp only []
-            have c1 := sim_exit lo ι house name P first u base s0 hinj hleaf exits s l h
-            cases r1 : exit lo u exits s with
+            have cb := corr_ghosted _ (fun _ _ q hh => hh.ghost q) (enters.map (fun f => (u, f))) _ _
+              (fun s l hh => sim_transitBody lo ι house name P first u base s0 hinj hleaf hE hR exits reexens enters s l hh) s l h
+            cases rb : ghosted (enters.map (fun f => (u, f))) (transitBody lo u exits reexens enters) s with
             | error e =>
-              cases r1' : lexit P exits l with
-              | error e' => rw [r1, r1'] at c1; exact c1
-              | ok l1 => rw [r1, r1'] at c1; exact c1.elim
-            | ok s1 =>
-              cases r1' : lexit P exits l with
-              | error e' => rw [r1, r1'] at c1; exact c1.elim
-              | ok l1 =>
-                rw [r1, r1'] at c1
+              cases rb' : ltransitBody P exits reexens enters l with
+              | error e' => rw [rb, rb'] at cb; exact cb
+              | ok l4 => rw [rb, rb'] at cb; exact cb.elim
+            | ok s4 =>
+              cases rb' : ltransitBody P exits reexens enters l with
+              | error e' => rw [rb, rb'] at cb; exact cb.elim
+              | ok l4 =>
+                rw [rb, rb'] at cb
                 simp only []
-                have c2 := sim_rexit lo ι house name P first u base s0 hinj hleaf reexens s1 l1 c1
-                cases r2 : rexit lo u reexens s1 with
+                have c5 := sim_activate ι house name P first u base s0 far s4 l4 cb
+                cases r5 : activate u far s4 with
                 | error e =>
-                  cases r2' : lrexit P reexens l1 with
-                  | error e' => rw [r2, r2'] at c2; exact c2
-                  | ok l2 => rw [r2, r2'] at c2; exact c2.elim
-                | ok s2 =>
-                  cases r2' : lrexit P reexens l1 with
-                  | error e' => rw [r2, r2'] at c2; exact c2.elim
-                  | ok l2 =>
-                    rw [r2, r2'] at c2
-                    simp only []
-                    have c3 := sim_renter lo ι house name P first u base s0 hinj hleaf reexens s2 l2 c2
-                    cases r3 : renter lo u reexens s2 with
-                    | error e =>
-                      cases r3' : lrenter P reexens l2 with
-                      | error e' => rw [r3, r3'] at c3; exact c3
-                      | ok l3 => rw [r3, r3'] at c3; exact c3.elim
-                    | ok s3 =>
-                      cases r3' : lrenter P reexens l2 with
-                      | error e' => rw [r3, r3'] at c3; exact c3.elim
-                      | ok l3 =>
-                        rw [r3, r3'] at c3
-                        simp only []
-                        have c4 := sim_enter lo ι house name P first u base s0 hinj hleaf hE hR enters s3 l3 c3
-                        cases r4 : enter lo u enters s3 with
-                        | error e =>
-                          cases r4' : lenter P enters l3 with
-                          | error e' => rw [r4, r4'] at c4; exact c4
-                          | ok l4 => rw [r4, r4'] at c4; exact c4.elim
-                        | ok s4 =>
-                          cases r4' : lenter P enters l3 with
-                          | error e' => rw [r4, r4'] at c4; exact c4.elim
-                          | ok l4 =>
-                            rw [r4, r4'] at c4
-                            simp only []
-                            have c5 := sim_activate ι house name P first u base s0 far s4 l4 c4
-                            cases r5 : activate u far s4 with
-                            | error e =>
-                              cases r5' : lactivate P far l4 with
-                              | error e' => rw [r5, r5'] at c5; exact c5
-                              | ok l5 => rw [r5, r5'] at c5; exact c5.elim
-                            | ok s5 =>
-                              cases r5' : lactivate P far l4 with
-                              | error e' => rw [r5, r5'] at c5; exact c5.elim
-                              | ok l5 =>
-                                rw [r5, r5'] at c5
-                                exact ⟨rfl, c5⟩
-
+                  cases r5' : lactivate P far l4 with
+                  | error e' => rw [r5, r5'] at c5; exact c5
+                  | ok l5 => rw [r5, r5'] at c5; exact c5.elim
+                | ok s5 =>
+                  cases r5' : lactivate P far l4 with
+                  | error e' => rw [r5, r5'] at c5; exact c5.elim
+                  | ok l5 =>
+                    rw [r5, r5'] at c5
+                    exact ⟨rfl, c5⟩
 
 def Pre.leafy : Pre → Bool
   | .act a => a.leafy
